@@ -298,6 +298,19 @@ func (p *sparser) parseType() string {
 		p.next()
 		sb.WriteString("." + p.next().s)
 	}
+	// generic instantiation: Name[T1, T2]
+	if p.isOp("[") && (p.toks[p.p+1].k == "id" || (p.toks[p.p+1].k == "op" && (p.toks[p.p+1].s == "*" || p.toks[p.p+1].s == "["))) {
+		p.next()
+		var args []string
+		for {
+			args = append(args, p.parseType())
+			if !p.accept(",") {
+				break
+			}
+		}
+		p.expect("]")
+		sb.WriteString("[" + strings.Join(args, ",") + "]")
+	}
 	return sb.String()
 }
 
